@@ -13,12 +13,12 @@ def load_json(p):
         return {}
 
 demos = {}
-for f in ("verify-demos-1.json", "verify-demos-2.json", "verify-demos-3.json", "verify-demos-4.json"):
-    demos.update(load_json(os.path.join(SRC, f)))
+import glob
+for f in sorted(glob.glob(os.path.join(SRC, "verify-demos-*.json"))):
+    demos.update(load_json(f))
 
 tests = {}
-for f in ("verify_tests.txt", "verify_tests2.txt"):
-    p = os.path.join(SRC, f)
+for p in sorted(glob.glob(os.path.join(SRC, "verify_tests*.txt"))):
     if os.path.exists(p):
         for l in open(p):
             m = re.match(r"(\S+) tests_passed=(\d+) failed_or_error=(\d+)", l)
@@ -45,14 +45,14 @@ if os.path.exists(p):
 
 os.makedirs(DST, exist_ok=True)
 index = []
-for rnd, prefix in ((1, "out-"), (2, "out2-")):
+for rnd, prefix in ((1, "out-"), (2, "out2-"), (3, "out3-"), (4, "out4-")):
     for i in range(1, 19):
         pid = f"C{i:02d}"
         for v in "AB":
             src = os.path.join(SRC, f"{prefix}{pid}", v)
             if not os.path.exists(os.path.join(src, "patch.diff")):
                 continue
-            key = f"{pid}/{v}" if rnd == 1 else f"{pid}/r2{v}"
+            key = f"{pid}/{v}" if rnd == 1 else f"{pid}/r{rnd}{v}"
             sid = f"{pid}-r{rnd}{v}"
             dst = os.path.join(DST, sid)
             if os.path.exists(dst):
@@ -78,7 +78,7 @@ for rnd, prefix in ((1, "out-"), (2, "out2-")):
             meta = {
                 "id": sid,
                 "property": pid,
-                "origin": f"independent sub-agent, round {rnd}, given only the property text and a scratch worktree",
+                "origin": f"independent sub-agent, round {rnd}, given only the property text and a scratch worktree" + (" (asked for a narrow trigger that survives a large randomized workload)" if rnd >= 3 else ""),
                 "summary": re.sub(r"\s+", " ", readme)[:400],
                 "needs_to_manifest": needs,
                 "confirmed": {
